@@ -19,7 +19,7 @@ func c09(c *Ctx) {
 	p, r := c.Prog, c.R
 	r.Explain = "BOUNDS: no-panic obligations over Unmarshal/IsPartitionHead/IsPartitionTail of every rtp.Depacketizer and " +
 		"the deprecated AV1 path; RESET R1 for the per-packet decoders (VP8, VP9, H265, Opus); OWN O1 for the fields the " +
-		"stateful depacketizers carry between calls (they must not alias an earlier input)."
+		"stateful depacketizers carry between calls (they must not alias an earlier input). LEB.range: a k-octet LEB128 encoding (k <= 12) is read back below 2^63, which the assumed obligations int(value) >= 0 rest on."
 	deps := depacketizers(c)
 	r.Floor("rtp.Depacketizer implementations", len(deps), 6)
 	var entries []*ssa.Function
